@@ -235,6 +235,14 @@ def _affix_tests(ctx: Ctx, folder: Folder, f: FuncInfo, depth: int = 0, seen: se
                     it = r.value
             if isinstance(it, (ast.Tuple, ast.List)):
                 bind[tgt.id] = list(it.elts)
+            else:
+                # a constant computed at import time (`tuple(kind.open_delim for kind in _TAG_KINDS)`): folded to its value
+                try:
+                    v_ = folder.eval(it, f.module, {}, f)
+                except Exception:  # noqa: BLE001
+                    v_ = None
+                if isinstance(v_, (tuple, list)) and v_ and all(isinstance(e_, str) for e_ in v_):
+                    bind[tgt.id] = [ast.Constant(value=e_) for e_ in v_]
     for c in walk_no_nested(f.node):
         if not isinstance(c, ast.Call):
             continue
